@@ -882,10 +882,22 @@ func (m *Machine) chanRecv(fr *frame, ch *Chan, pos token.Pos) (Value, bool) {
 	return m.chanTake(ch)
 }
 
+// notifySelects commits every select parked on ch to the cases that are ready now.
+func (ch *Chan) notifySelects() {
+	for _, w := range ch.selWaiters {
+		if w.committed == nil {
+			if rd := w.ready(); len(rd) > 0 {
+				w.committed = rd
+			}
+		}
+	}
+}
+
 func (m *Machine) chanTake(ch *Chan) (Value, bool) {
 	if len(ch.Buf) > 0 {
 		v := ch.Buf[0]
 		ch.Buf = ch.Buf[1:]
+		ch.notifySelects()
 		return v, true
 	}
 	if len(ch.sendq) > 0 {
@@ -913,6 +925,7 @@ func (m *Machine) chanSend(fr *frame, ch *Chan, v Value, pos token.Pos) {
 			}
 		}
 		ch.Buf = append(ch.Buf, copyVal(v))
+		ch.notifySelects()
 		m.syncAfter(fr)
 		return
 	}
@@ -933,6 +946,7 @@ func (m *Machine) chanClose(fr *frame, ch *Chan, pos token.Pos) {
 		panic(targetPanic{msg: "close of closed channel", pos: m.posString(pos)})
 	}
 	ch.Closed = true
+	ch.notifySelects()
 	m.syncAfter(fr)
 }
 
@@ -971,18 +985,50 @@ func (m *Machine) selectInstr(fr *frame, instr *ssa.Select) Value {
 	chosen := -1
 	if len(rd) == 0 {
 		if instr.Blocking {
+			w := &selWaiter{ready: ready}
 			for _, s := range states {
-				if s.ch != nil && s.recv {
-					s.ch.recvWaiting++
+				if s.ch != nil {
+					s.ch.selWaiters = append(s.ch.selWaiters, w)
+					if s.recv {
+						s.ch.recvWaiting++
+					}
 				}
 			}
-			m.block(func() bool { return len(ready()) > 0 }, "select")
+			m.block(func() bool {
+				if w.committed == nil {
+					// (events that do not go through a channel operation of the engine, if any)
+					if r := ready(); len(r) > 0 {
+						w.committed = r
+					}
+				}
+				return w.committed != nil
+			}, "select")
 			for _, s := range states {
-				if s.ch != nil && s.recv {
-					s.ch.recvWaiting--
+				if s.ch != nil {
+					for i, x := range s.ch.selWaiters {
+						if x == w {
+							s.ch.selWaiters = append(s.ch.selWaiters[:i:i], s.ch.selWaiters[i+1:]...)
+							break
+						}
+					}
+					if s.recv {
+						s.ch.recvWaiting--
+					}
 				}
 			}
-			rd = ready()
+			// the cases the select was woken by; one of them may have been taken by
+			// somebody else in the meantime (then fall back to what is ready now)
+			now := ready()
+			for _, i := range w.committed {
+				for _, j := range now {
+					if i == j {
+						rd = append(rd, i)
+					}
+				}
+			}
+			if len(rd) == 0 {
+				rd = now
+			}
 		}
 	}
 	if len(rd) > 0 {
